@@ -25,7 +25,27 @@ def direct(kind, d, text):
     if got != d:
         return {"key": None, "what": "the parser returns a different definition than the grammar denotes", "kind": kind, "text": text,
                 "def": PS.def_to_json(d), "parsed": PS.def_to_json(got)}
+    # the caller edits every list inside ITS result in place (names, OID lists, the value lists of the extensions); the same sentence still
+    # denotes the same definition
+    import mutate
+
+    want = PS.def_to_json(d)
+    if mutate.edit_lists(got, _RNG, "dup"):
+        for v in (got.extensions or {}).values() if isinstance(getattr(got, "extensions", None), dict) else []:
+            v.append("injected")
+        try:
+            again = PS.CLS[kind].from_string(text)
+        except BaseException as e:  # noqa: BLE001
+            return {"key": None, "what": f"a second parse of the same sentence raised {type(e).__name__}", "kind": kind, "text": text, "def": want}
+        if PS.def_to_json(again) != want:
+            return {"key": None, "what": "the parser returns a different definition than the grammar denotes after the caller edited the lists of an earlier "
+                    "parse result in place (parts of parse results are shared)", "kind": kind, "text": text, "def": want, "parsed": PS.def_to_json(again)}
     return None
+
+
+import random as _random
+
+_RNG = _random.Random(17)
 
 
 def total(kind, text):
